@@ -88,6 +88,18 @@ func checkC18(p *Prog, r *Report) {
 					})
 				}
 				if !okG {
+					// the bound was established for every element by an earlier loop of this function over the same slice
+					if lc, ok := cv.X.(*ssa.Call); ok && len(lc.Call.Args) == 1 {
+						if u, ok := lc.Call.Args[0].(*ssa.UnOp); ok {
+							if ia, ok := u.X.(*ssa.IndexAddr); ok {
+								if c, ok := earlierBoundLoop(fn, cv, ia.X); ok && c <= 255 {
+									okG, w = true, fmt.Sprintf("an earlier loop over the same slice returns an error for any element with len > %d, and dominates this loop", c)
+								}
+							}
+						}
+					}
+				}
+				if !okG {
 					// the bound was established for every element by a first pass over the same slice (an extracted size/bound helper)
 					if lc, ok := cv.X.(*ssa.Call); ok && len(lc.Call.Args) == 1 {
 						if u, ok := lc.Call.Args[0].(*ssa.UnOp); ok {
@@ -258,6 +270,12 @@ func checkEncoderShape(p *Prog, r *Report, kp func(string, string) string, fn *s
 		x, ok := store.Addr.(*ssa.IndexAddr)
 		return x, ok
 	}()
+	if ia != nil {
+		if al, isAl := ia.X.(*ssa.Alloc); isAl && strings.Contains(al.Comment, "varargs") {
+			checkAppendEncoderShape(p, r, kp, fn, cv, val, al)
+			return
+		}
+	}
 	if ia == nil {
 		r.Fail(kp("LIN", fname+"#length-byte-store"), "exactly one length byte is stored at the running index", site, "the converted length is not stored into the buffer")
 		return
@@ -874,4 +892,187 @@ func sizePassBefore(fn *ssa.Function, at ssa.Instruction, vals ssa.Value) (*size
 		}
 	}
 	return nil, nil
+}
+
+// earlierBoundLoop: before the loop containing `at`, fn has a loop over the same slice whose body returns an error when
+// len(element) > C (for every element), and every path from that loop's exit leads here; returns C.
+func earlierBoundLoop(fn *ssa.Function, at ssa.Instruction, slice ssa.Value) (int64, bool) {
+	for _, b := range fn.Blocks {
+		if !inCycle(b) || len(b.Instrs) == 0 {
+			continue
+		}
+		iff, ok := b.Instrs[len(b.Instrs)-1].(*ssa.If)
+		if !ok {
+			continue
+		}
+		bo, ok := iff.Cond.(*ssa.BinOp)
+		if !ok {
+			continue
+		}
+		lc, ok := bo.X.(*ssa.Call)
+		if !ok || len(lc.Call.Args) != 1 {
+			continue
+		}
+		if bi, isB := lc.Call.Value.(*ssa.Builtin); !isB || bi.Name() != "len" {
+			continue
+		}
+		u, ok := lc.Call.Args[0].(*ssa.UnOp)
+		if !ok {
+			continue
+		}
+		ia, ok := u.X.(*ssa.IndexAddr)
+		if !ok || ia.X != slice {
+			continue
+		}
+		c, ok := bo.Y.(*ssa.Const)
+		if !ok {
+			continue
+		}
+		var bound int64 = -1
+		failT, failF := blockFails(b.Succs[0], 0), blockFails(b.Succs[1], 0)
+		switch {
+		case bo.Op == token.GTR && failT && !failF:
+			bound = c.Int64()
+		case bo.Op == token.GEQ && failT && !failF:
+			bound = c.Int64() - 1
+		case bo.Op == token.LEQ && failF && !failT:
+			bound = c.Int64()
+		case bo.Op == token.LSS && failF && !failT:
+			bound = c.Int64() - 1
+		default:
+			continue
+		}
+		// the test is executed for every element: it dominates the back edge of its loop; and that loop's header dominates `at`
+		// while `at` is not inside that loop (a later loop)
+		var header *ssa.BasicBlock
+		for d := b; d != nil; d = d.Idom() {
+			for _, pr := range d.Preds {
+				if d.Dominates(pr) {
+					header = d
+				}
+			}
+			if header != nil {
+				break
+			}
+		}
+		if header == nil || !header.Dominates(at.Block()) {
+			continue
+		}
+		inSameLoop := false
+		for _, pr := range header.Preds {
+			if header.Dominates(pr) {
+				if !b.Dominates(pr) {
+					header = nil // some iteration skips the test
+					break
+				}
+				// is `at` inside this loop? (at's block reaches the back edge source without leaving)
+				if at.Block() == pr || at.Block().Dominates(pr) && header.Dominates(at.Block()) && reachesAvoiding(at.Block(), pr, header) {
+					inSameLoop = true
+				}
+			}
+		}
+		if header == nil {
+			continue
+		}
+		if inSameLoop {
+			// the conversion sits in the same loop after the test: the ordinary dominating-fact rule applies, not this one
+			continue
+		}
+		return bound, true
+	}
+	return 0, false
+}
+
+// reachesAvoiding: b reaches target without passing through stop.
+func reachesAvoiding(b, target, stop *ssa.BasicBlock) bool {
+	seen := map[*ssa.BasicBlock]bool{}
+	var st []*ssa.BasicBlock
+	st = append(st, b)
+	for len(st) > 0 {
+		x := st[len(st)-1]
+		st = st[:len(st)-1]
+		if x == target {
+			return true
+		}
+		if seen[x] || x == stop && x != b {
+			continue
+		}
+		seen[x] = true
+		st = append(st, x.Succs...)
+	}
+	return false
+}
+
+// checkAppendEncoderShape: the encoder builds its output by appending, per component, one length byte and then the whole value:
+//   buf = append(buf, uint8(len(v))) ; buf = append(buf, v...)   with buf starting empty and carried round the loop.
+func checkAppendEncoderShape(p *Prog, r *Report, kp func(string, string) string, fn *ssa.Function, cv *ssa.Convert, val ssa.Value, one *ssa.Alloc) {
+	fname := FuncName(fn)
+	site := p.Pos(cv.Pos())
+	arr, _ := one.Type().Underlying().(*types.Pointer).Elem().Underlying().(*types.Array)
+	okOne := arr != nil && arr.Len() == 1
+	// the one-element slice is appended to the running buffer, then the value itself is appended to that result
+	var first, second *ssa.Call
+	if refs := one.Referrers(); refs != nil {
+		for _, rf := range *refs {
+			if sl, ok := rf.(*ssa.Slice); ok {
+				if srefs := sl.Referrers(); srefs != nil {
+					for _, u := range *srefs {
+						if c, ok := u.(*ssa.Call); ok {
+							if bi, isB := c.Call.Value.(*ssa.Builtin); isB && bi.Name() == "append" && len(c.Call.Args) == 2 && c.Call.Args[1] == ssa.Value(sl) {
+								first = c
+							}
+						}
+					}
+				}
+			}
+		}
+	}
+	if first != nil {
+		if refs := first.Referrers(); refs != nil {
+			for _, u := range *refs {
+				if c, ok := u.(*ssa.Call); ok {
+					if bi, isB := c.Call.Value.(*ssa.Builtin); isB && bi.Name() == "append" && len(c.Call.Args) == 2 && c.Call.Args[0] == ssa.Value(first) && c.Call.Args[1] == val {
+						second = c
+					}
+				}
+			}
+		}
+	}
+	r.Check(okOne && first != nil && second != nil && first.Block() == second.Block(), kp("LIN", fname+"#value-copied-after-length-byte"),
+		"the whole value is appended immediately after its single length byte", site, "buf = append(append(buf, uint8(len(v))), v...)", "the length byte and the value are not appended back to back")
+	// loop-carried buffer: phi [entry: empty buffer, back edge: second append]
+	okCarry, okEmpty := false, false
+	if first != nil && second != nil {
+		if phi, ok := first.Call.Args[0].(*ssa.Phi); ok {
+			for k, e := range phi.Edges {
+				pred := phi.Block().Preds[k]
+				if phi.Block().Dominates(pred) {
+					okCarry = e == ssa.Value(second)
+					continue
+				}
+				switch x := e.(type) {
+				case *ssa.MakeSlice:
+					if c, isC := x.Len.(*ssa.Const); isC && c.Int64() == 0 {
+						okEmpty = true
+					}
+				case *ssa.Const:
+					okEmpty = x.Value == nil // nil slice
+				}
+			}
+		}
+	}
+	r.Check(okCarry, kp("LIN", fname+"#index-advances-by-1+copied"), "the running output is the previous output plus this component's length byte and bytes", site, "buf' = append(append(buf, n), v...)", "the buffer carried round the loop is not the result of the two appends")
+	r.Check(okEmpty, kp("LIN", fname+"#buffer-size=Σ(1+len)"), "the output starts empty, so its length is Σ(1+len) over the components", site, "initial buffer has length 0", "the initial buffer is not empty")
+	// error branch on the bound test exists somewhere in the function
+	okErr := false
+	for _, b := range fn.Blocks {
+		if iff, ok := b.Instrs[len(b.Instrs)-1].(*ssa.If); ok {
+			if bo, ok := iff.Cond.(*ssa.BinOp); ok {
+				if e, ok := CmpNormal(bo); ok && strings.Contains(e.String(), "len(") && (blockFails(b.Succs[0], 0) || blockFails(b.Succs[1], 0)) {
+					okErr = true
+				}
+			}
+		}
+	}
+	r.Check(okErr, kp("GUARD", fname+"#oversize-is-an-error"), "a component longer than 255 bytes is rejected with an error", site, "the bound test has an error-returning branch", "no error-returning branch on the length test")
 }
